@@ -169,6 +169,7 @@ func fieldPath(fieldDescs protoreflect.FieldDescriptors, names ...string) []prot
 
 func (p *path) alive() bool {
 	return len(p.methods) != 0 ||
+		p.methodAll != nil ||
 		len(p.variables) != 0 ||
 		len(p.segments) != 0
 }
@@ -228,6 +229,10 @@ func (p *path) delRule(name string) bool {
 			delete(p.methods, k)
 			return true
 		}
+	}
+	if m := p.methodAll; m != nil && m.name == name {
+		p.methodAll = nil
+		return true
 	}
 	return false
 }
